@@ -460,7 +460,7 @@ def p_hist(o):
     crash = None
     if o.prop == "C02":
         crash = ("C02/registration-does-not-terminate", "registering a (possibly cyclic) type crashed the process (stack overflow / abort)")
-    rt_pass(o, exe, "hist", ["--cases", sizes(o.tier, 30_000, 1_500_000), "--max-secs", sizes(o.tier, 60, 400)], timeout=sizes(o.tier, 400, 1800), crash_is_violation=crash)
+    rt_pass(o, exe, "hist", ["--cases", sizes(o.tier, 30_000, 6_000_000), "--max-secs", sizes(o.tier, 60, 480)], timeout=sizes(o.tier, 400, 1800), crash_is_violation=crash)
     o.rule = HIST_RULE
     floor = ["cyclic_type_registered", "type_first_met_as_type_parameter", "op_register_type", "op_register_types", "op_map_into_portable_type", "op_map_into_portable_params"] + \
             ["def_" + k for k in ("composite", "variant", "sequence", "array", "tuple", "primitive", "compact", "bitsequence")]
@@ -502,7 +502,7 @@ def p_hist(o):
 def p_values(o):
     exe = build_rtc(o)
     o.replay_base = {"sub": "values", "bin": "rtc"}
-    rt_pass(o, exe, "values", ["--rounds", sizes(o.tier, 6, 60), "--values", sizes(o.tier, 150, 600), "--max-secs", sizes(o.tier, 60, 420)], timeout=sizes(o.tier, 400, 1800))
+    rt_pass(o, exe, "values", ["--rounds", sizes(o.tier, 6, 300), "--values", sizes(o.tier, 150, 600), "--max-secs", sizes(o.tier, 60, 420)], timeout=sizes(o.tier, 400, 1800))
     if o.prop == "C04":
         o.rule = ("every built-in type expression of the corpus (core: each impl family of C04 incl. all NonZero*, all 8 BitVec store/order pairs, Compact<u8..u128,()>, Cow of sized/unsized targets, "
                   "tuples 1..20, arrays 0..1000; seeded nesting to depth 4) x boundary-heavy sampled values; each value is SCALE-encoded by parity-scale-codec and decoded by a schema-directed decoder "
@@ -550,7 +550,7 @@ def p_builders(o):
     for feats in ((), ("docs",)):
         exe = build_rt(feats)
         pre = "docs_on_" if feats else "docs_off_"
-        rep = rt_pass(o, exe, "builders", ["--cases", sizes(o.tier, 200_000, 5_000_000), "--max-secs", sizes(o.tier, 40, 240)], timeout=sizes(o.tier, 300, 1200), prefix=pre, name="C17-builders-%s" % ("on" if feats else "off"))
+        rep = rt_pass(o, exe, "builders", ["--cases", sizes(o.tier, 200_000, 20_000_000), "--max-secs", sizes(o.tier, 40, 240)], timeout=sizes(o.tier, 300, 1200), prefix=pre, name="C17-builders-%s" % ("on" if feats else "off"))
         if rep is not None and rep.get("docs_feature") != bool(feats):
             o.inconclusive.append("build with features %s reports docs_feature=%s" % (feats, rep.get("docs_feature")))
         o.need(["portable_scripts", "meta_scripts", "phantom_members_supplied", "tuple_ctor_checks", "portable_field_builders"], pre)
@@ -986,7 +986,7 @@ def sizes(tier, quick, thorough):
 
 def p_codec(o):
     exe = build_rt()
-    cases = sizes(o.tier, 150_000, 6_000_000)
+    cases = sizes(o.tier, 150_000, 12_000_000)
     o.replay_base = {"sub": "codec"}
     rt_pass(o, exe, "codec", ["--cases", cases, "--max-secs", sizes(o.tier, 60, 420)], timeout=sizes(o.tier, 300, 1500))
     o.rule = ("RegGen registries (seeded; well-formed and arbitrary modes; every definition kind; ids from all four compact size classes; "
@@ -1004,7 +1004,7 @@ def p_codec(o):
 def p_retain(o):
     exe = build_rt()
     o.replay_base = {"sub": "retain"}
-    rt_pass(o, exe, "retain", ["--cases", sizes(o.tier, 400_000, 12_000_000), "--max-secs", sizes(o.tier, 60, 420)], timeout=sizes(o.tier, 300, 1500),
+    rt_pass(o, exe, "retain", ["--cases", sizes(o.tier, 400_000, 30_000_000), "--max-secs", sizes(o.tier, 60, 420)], timeout=sizes(o.tier, 300, 1500),
             crash_is_violation=("C10/crash", "retain crashed the process (stack overflow / abort) on a well-formed registry"))
     o.rule = ("(well-formed RegGen registry, filter) pairs; filters: none, all, single id, last, pair, random subsets of several densities, only leaves, only roots. "
               "Non-trivial: filter accepts something, reachability adds ids beyond the accepted ones, and something is dropped. distinct = distinct (registry encoding, accepted set).")
@@ -1017,7 +1017,7 @@ def p_retain(o):
 def p_table(o):
     exe = build_rt()
     o.replay_base = {"sub": "table"}
-    rt_pass(o, exe, "table", ["--cases", sizes(o.tier, 400_000, 12_000_000), "--max-secs", sizes(o.tier, 60, 360)], timeout=sizes(o.tier, 300, 1500))
+    rt_pass(o, exe, "table", ["--cases", sizes(o.tier, 400_000, 30_000_000), "--max-secs", sizes(o.tier, 60, 360)], timeout=sizes(o.tier, 300, 1500))
     o.rule = ("random operation histories (<=200 ops) over tiny value alphabets (2-8 values) on Interner<u8>, Interner<String> and PortableRegistryBuilder "
               "(pool of RegGen types, self-referencing registrations through next_type_id). Every history with >=1 op is non-trivial; distinct = distinct op sequences.")
     o.need(["intern_new", "intern_duplicate", "get_hit", "get_miss", "resolve_in_range", "resolve_out_of_range", "elements_compared",
